@@ -74,11 +74,7 @@ var zzPrefixes = []string{
 // zzTemplate returns a concrete prefix followed by a few arbitrary bytes.
 func zzTemplate() []byte {
 	p := zzPrefixes[zz.Choice(len(zzPrefixes))]
-	k := 1
-	if zz.Tier() == 1 {
-		k = 2
-	}
-	n := zz.IntRange(0, k)
+	n := zz.IntRange(0, 2)
 	return append([]byte(p), zz.Bytes(n)...)
 }
 
@@ -97,7 +93,7 @@ func HarnessC12Lex() {
 
 // HarnessC12LexTmpl: the same assertions on longer inputs made of a concrete prefix (chosen
 // from zzPrefixes: BOM, comments before tokens, string/number/escape starts) followed by
-// 0..1 (quick) / 0..2 (thorough) arbitrary bytes.
+// 0..2 arbitrary bytes.
 func HarnessC12LexTmpl() { zzC12Body(zzTemplate()) }
 
 func zzC12Body(data []byte) {
